@@ -35,7 +35,7 @@ var (
 )
 
 type stats struct {
-	files, syncImports, recvs, sends, selects, ranges, gos, sleeps, afterfuncs, captured, mapwin, osx, maprange, maprangeSkipped int
+	files, syncImports, recvs, sends, selects, ranges, gos, sleeps, afterfuncs, captured, mapwin, osx, maprange, maprangeSkipped, detselects int
 	lint                                                                                              []string
 }
 
@@ -103,8 +103,8 @@ func main() {
 	for _, l := range st.lint {
 		fmt.Fprintln(os.Stderr, "simrewrite: lint:", l)
 	}
-	fmt.Printf("simrewrite: files=%d sync=%d recv=%d send=%d select=%d rangechan=%d go=%d sleep=%d afterfunc=%d captured-assign=%d map-window=%d simos=%d map-range=%d (not orderable: %d)\n",
-		st.files, st.syncImports, st.recvs, st.sends, st.selects, st.ranges, st.gos, st.sleeps, st.afterfuncs, st.captured, st.mapwin, st.osx, st.maprange, st.maprangeSkipped)
+	fmt.Printf("simrewrite: files=%d sync=%d recv=%d send=%d select=%d rangechan=%d go=%d sleep=%d afterfunc=%d captured-assign=%d map-window=%d simos=%d map-range=%d (not orderable: %d) det-select=%d\n",
+		st.files, st.syncImports, st.recvs, st.sends, st.selects, st.ranges, st.gos, st.sleeps, st.afterfuncs, st.captured, st.mapwin, st.osx, st.maprange, st.maprangeSkipped, st.detselects)
 }
 
 type rewriter struct {
@@ -258,6 +258,11 @@ func (r *rewriter) run() bool {
 				r.needOS = true
 				r.st.osx++
 				r.changed = true
+			case r.useSimos && r.pkgFunc(x.Fun, "github.com/AliceO2Group/Control/executor/executorcmd", "NewClient"):
+				// the blocking gRPC dial to the task's control port goes to the simulated task
+				x.Fun.(*ast.SelectorExpr).Sel = ast.NewIdent("NewClientDialedForVerif")
+				r.st.osx++
+				r.changed = true
 			case r.useSimos && r.pkgFunc(x.Fun, "os", "FindProcess"):
 				x.Fun = &ast.SelectorExpr{X: ast.NewIdent("simos"), Sel: ast.NewIdent("FindProcess")}
 				r.needOS = true
@@ -276,6 +281,11 @@ func (r *rewriter) run() bool {
 			x.Body = r.rewriteList(x.Body, true)
 			r.st.selects++
 			r.changed = true
+		case *ast.SelectStmt:
+			if blk := r.rewriteSelect(x, c.Parent()); blk != nil {
+				c.Replace(blk)
+				r.st.detselects++
+			}
 		case *ast.RangeStmt:
 			if r.isChan(x.X) {
 				x.Body.List = append([]ast.Stmt{r.callStmt("Yield")}, x.Body.List...)
@@ -366,6 +376,138 @@ func (r *rewriter) rewriteList(list []ast.Stmt, commBody bool) []ast.Stmt {
 		}
 	}
 	return out
+}
+
+// R7 ------------------------------------------------------------------------------------------
+
+func unparen(e ast.Expr) ast.Expr {
+	for {
+		p, ok := e.(*ast.ParenExpr)
+		if !ok {
+			return e
+		}
+		e = p.X
+	}
+}
+
+// rewriteSelect turns a select with two or more communication clauses into a simrt.Select,
+// whose choice among several ready clauses comes from the tape instead of the runtime's coin.
+func (r *rewriter) rewriteSelect(sel *ast.SelectStmt, parent ast.Node) ast.Stmt {
+	n := 0
+	for _, cl := range sel.Body.List {
+		if cc := cl.(*ast.CommClause); cc.Comm != nil {
+			n++
+		}
+	}
+	if n < 2 {
+		return nil
+	}
+	if _, labelled := parent.(*ast.LabeledStmt); labelled {
+		r.st.lint = append(r.st.lint, fmt.Sprintf("%s: labelled select left to the runtime's choice", r.fset.Position(sel.Pos())))
+		return nil
+	}
+	r.tmpN++
+	selName := fmt.Sprintf("simsel%d_", r.tmpN)
+	blk := &ast.BlockStmt{}
+	blk.List = append(blk.List, &ast.AssignStmt{
+		Lhs: []ast.Expr{ast.NewIdent(selName)}, Tok: token.DEFINE,
+		Rhs: []ast.Expr{&ast.CallExpr{Fun: r.rt("NewSelect")}},
+	})
+	sw := &ast.SwitchStmt{Body: &ast.BlockStmt{}}
+	hasDefault := false
+	idx := 0
+	for _, cl := range sel.Body.List {
+		cc := cl.(*ast.CommClause)
+		body := cc.Body
+		// the scheduling point at the head of the clause is made by Select.Run
+		if len(body) > 0 {
+			if es, ok := body[0].(*ast.ExprStmt); ok {
+				if ce, ok := es.X.(*ast.CallExpr); ok {
+					if se, ok := ce.Fun.(*ast.SelectorExpr); ok && se.Sel.Name == "Yield" {
+						if id, ok := se.X.(*ast.Ident); ok && id.Name == "simrt" {
+							body = body[1:]
+						}
+					}
+				}
+			}
+		}
+		if cc.Comm == nil {
+			hasDefault = true
+			sw.Body.List = append(sw.Body.List, &ast.CaseClause{Body: body})
+			continue
+		}
+		caseBody := []ast.Stmt{}
+		switch cm := cc.Comm.(type) {
+		case *ast.SendStmt:
+			blk.List = append(blk.List, &ast.ExprStmt{X: &ast.CallExpr{
+				Fun:  &ast.SelectorExpr{X: ast.NewIdent(selName), Sel: ast.NewIdent("Send")},
+				Args: []ast.Expr{cm.Chan, cm.Value},
+			}})
+		default:
+			var recv *ast.UnaryExpr
+			var asg *ast.AssignStmt
+			switch st := cm.(type) {
+			case *ast.ExprStmt:
+				recv, _ = unparen(st.X).(*ast.UnaryExpr)
+			case *ast.AssignStmt:
+				asg = st
+				if len(st.Rhs) == 1 {
+					recv, _ = unparen(st.Rhs[0]).(*ast.UnaryExpr)
+				}
+			}
+			if recv == nil || recv.Op != token.ARROW {
+				r.st.lint = append(r.st.lint, fmt.Sprintf("%s: select clause of unknown shape, select left as it is", r.fset.Position(cc.Pos())))
+				return nil
+			}
+			chName := fmt.Sprintf("simch%d_%d_", r.tmpN, idx)
+			blk.List = append(blk.List,
+				&ast.AssignStmt{Lhs: []ast.Expr{ast.NewIdent(chName)}, Tok: token.DEFINE, Rhs: []ast.Expr{recv.X}},
+				&ast.ExprStmt{X: &ast.CallExpr{
+					Fun:  &ast.SelectorExpr{X: ast.NewIdent(selName), Sel: ast.NewIdent("Recv")},
+					Args: []ast.Expr{ast.NewIdent(chName)},
+				}})
+			if asg != nil {
+				allBlank := true
+				for _, l := range asg.Lhs {
+					if id, ok := l.(*ast.Ident); !ok || id.Name != "_" {
+						allBlank = false
+					}
+				}
+				if !allBlank {
+					fn := "SelValue"
+					if len(asg.Lhs) == 2 {
+						fn = "SelValue2"
+					}
+					caseBody = append(caseBody, &ast.AssignStmt{Lhs: asg.Lhs, Tok: asg.Tok, Rhs: []ast.Expr{&ast.CallExpr{
+						Fun: r.rt(fn), Args: []ast.Expr{ast.NewIdent(selName), ast.NewIdent(chName)},
+					}}})
+				}
+			}
+		}
+		caseBody = append(caseBody, body...)
+		sw.Body.List = append(sw.Body.List, &ast.CaseClause{
+			List: []ast.Expr{&ast.BasicLit{Kind: token.INT, Value: strconv.Itoa(idx)}},
+			Body: caseBody,
+		})
+		idx++
+	}
+	def := "false"
+	if hasDefault {
+		def = "true"
+	} else {
+		// a select without default is a terminating statement if its clauses are; keep that
+		sw.Body.List = append(sw.Body.List, &ast.CaseClause{Body: []ast.Stmt{&ast.ExprStmt{X: &ast.CallExpr{
+			Fun: ast.NewIdent("panic"), Args: []ast.Expr{&ast.BasicLit{Kind: token.STRING, Value: strconv.Quote("simrt: select without default returned no clause")}},
+		}}}})
+	}
+	sw.Tag = &ast.CallExpr{
+		Fun:  &ast.SelectorExpr{X: ast.NewIdent(selName), Sel: ast.NewIdent("Run")},
+		Args: []ast.Expr{ast.NewIdent(def)},
+	}
+	blk.List = append(blk.List, sw)
+	r.needRT = true
+	r.changed = true
+	return blk
 }
 
 // R4 ------------------------------------------------------------------------------------------
